@@ -170,7 +170,8 @@ def run(ctx):
                     continue
                 outer, inner = rw[idx][4], rp[idx][4]
                 queries.append("peel " + outer.hex() + " " + " ".join(
-                    "%s:%d:%d:%d:%d:%d:%d:%d" % (s.kind, 1 if s.raw else 0, s.pa, s.pb, s.vni, s.et, pix, cnt + j)
+                    "%s:%d:%d:%d:%d:%d:%d:%s:%d:%d" % (s.kind, 1 if s.raw else 0, s.pa, s.pb, s.vni, s.et, pix,
+                                                      (cnt + j) % 2**32 if s.kind == "erspan2" else "-", s.a, s.b)
                     for (s, pix, cnt) in reversed(layers)))
                 owners.append((c, p, idx, inner))
                 idx += 1
